@@ -160,6 +160,8 @@ MUTANTS: Dict[str, List[M]] = {
         ("applied links not recorded", "_link_arguments.py", "            applied_links.add(action)\n", "", "C16.d"),
     ],
     "C17": [
+        ("default config file picks the subcommand", "_core.py", "with _ActionPrintConfig.skip_print_config(), _ActionSubCommands.not_single_subcommand():", "with _ActionPrintConfig.skip_print_config():", "C17.h"),
+        ("default config fold forces a decision", "_core.py", "                            skip_required=True,\n                            fail_no_subcommand=False,\n", "                            skip_required=True,\n", "C17.h"),
         ("other sections only partly deleted", "_actions.py", "for key in [k for k in subcommand_keys if k != subcommand]:", "for key in subcommand_keys[1:]:", "C17.c"),
         ("other sections deleted without the prefix", "_actions.py", "                del cfg[prefix + key]", "                del cfg[key]", "C17.c"),
         ("other sections deleted only when they are non-empty", "_actions.py", "                del cfg[prefix + key]", "                if cfg[prefix + key]:\n                    del cfg[prefix + key]", "C17.c"),
